@@ -713,8 +713,29 @@ def unroll_const_loops(fnode, consts=None, limit=8):
                 return ast.copy_location(ast.Attribute(value=c.args[0], attr=c.args[1].value, ctx=ast.Load()), c)
             return c
 
+    # locals bound exactly once (anywhere in the function, nested definitions included) to a literal table
+    tables = {}
+    counts = {}
+    for n in ast.walk(fn):
+        if isinstance(n, ast.Name) and isinstance(n.ctx, ast.Store):
+            counts[n.id] = counts.get(n.id, 0) + 1
+    for n in ast.walk(fn):
+        if isinstance(n, ast.Assign) and len(n.targets) == 1 and isinstance(n.targets[0], ast.Name) and counts.get(n.targets[0].id) == 1 \
+                and isinstance(n.value, (ast.Tuple, ast.List)):
+            tables[n.targets[0].id] = n.value
+
+    def plain(e):
+        """an element that can be substituted for the loop variable: constants, lambdas, names, tuples of these"""
+        if isinstance(e, (ast.Constant, ast.Lambda, ast.Name, ast.Attribute)):
+            return True
+        return isinstance(e, (ast.Tuple, ast.List)) and all(plain(x) for x in e.elts)
+
     def items_of(it):
+        if isinstance(it, ast.Name) and it.id in tables:
+            it = tables[it.id]
         if isinstance(it, (ast.Tuple, ast.List)) and all(isinstance(e, ast.Constant) for e in it.elts) and len(it.elts) <= limit:
+            return [e for e in it.elts]
+        if isinstance(it, (ast.Tuple, ast.List)) and it.elts and all(plain(e) for e in it.elts) and len(it.elts) <= limit:
             return [e for e in it.elts]
         if consts is not None and isinstance(it, (ast.Name, ast.Attribute)):
             v = consts(norm(it))
@@ -730,18 +751,35 @@ def unroll_const_loops(fnode, consts=None, limit=8):
                     setattr(st, fld, rewrite(getattr(st, fld)))
             for h in getattr(st, 'handlers', []) or []:
                 h.body = rewrite(h.body)
-            if isinstance(st, ast.For) and isinstance(st.target, ast.Name) and not st.orelse:
+            if isinstance(st, ast.For) and not st.orelse and (isinstance(st.target, ast.Name) or (
+                    isinstance(st.target, (ast.Tuple, ast.List)) and all(isinstance(x, ast.Name) for x in st.target.elts))):
                 items = items_of(st.iter)
+                names = [st.target.id] if isinstance(st.target, ast.Name) else [x.id for x in st.target.elts]
                 jumps = any(isinstance(n, (ast.Break, ast.Continue)) for n in walk_no_nested(st))
-                stores = any(isinstance(n, ast.Name) and n.id == st.target.id and isinstance(n.ctx, ast.Store) for b in st.body for n in ast.walk(b))
+                stores = any(isinstance(n, ast.Name) and n.id in names and isinstance(n.ctx, ast.Store) for b in st.body for n in ast.walk(b))
+                if items is not None and isinstance(st.target, (ast.Tuple, ast.List)) and not all(
+                        isinstance(c, (ast.Tuple, ast.List)) and len(c.elts) == len(names) for c in items):
+                    items = None
                 if items is not None and not jumps and not stores:
                     for c in items:
+                        binding = {names[0]: c} if isinstance(st.target, ast.Name) else dict(zip(names, c.elts))
                         for b in st.body:
-                            nb = _Rename({}, {st.target.id: c}).visit(clone(b))
-                            out.append(G().visit(nb))
+                            nb = _Rename({}, binding).visit(clone(b))
+                            out.append(B().visit(G().visit(nb)))
                     continue
+            if isinstance(st, (ast.FunctionDef, ast.AsyncFunctionDef)):
+                st.body = rewrite(st.body)
             out.append(st)
         return out
+
+    class B(ast.NodeTransformer):
+        """(lambda p: E)(a) with a plain argument is E[p:=a]"""
+        def visit_Call(self, c):
+            self.generic_visit(c)
+            if isinstance(c.func, ast.Lambda) and not c.keywords and len(c.args) == len(c.func.args.args) and not c.func.args.vararg and not c.func.args.kwarg \
+                    and all(_simple_arg(a) for a in c.args):
+                return ast.copy_location(_Rename({}, {p_.arg: a for p_, a in zip(c.func.args.args, c.args)}).visit(clone(c.func.body)), c)
+            return c
     fn.body = rewrite(fn.body)
     fn = G().visit(fn)
     ast.fix_missing_locations(fn)
